@@ -3,12 +3,12 @@
    whether a result OBSERVED ON THE IMPLEMENTATION satisfies the property's statement for the given arguments.
    They never call the kernels of the model. Extracted and run by the driver on every disagreement between model and
    implementation, and on every line after a proof has broken. *)
-From Coq Require Import List NArith Arith Bool.
-From V Require Import Model.Kernels Model.TwoLevel Model.Decomp Spec.Bfun Spec.Transform Spec.BddSpec.
+From Coq Require Import List NArith ZArith Arith Bool.
+From V Require Import Model.Kernels Model.TwoLevel Model.Decomp Spec.Bfun Spec.Transform Spec.BddSpec Spec.TwoLevelCost.
 Import ListNotations.
 Open Scope N_scope.
 
-Definition dom (n : nat) : list N := map N.of_nat (seq 0 (Nat.pow 2 n)).
+(* dom, cube_good, sem_or, sem_xor, sem_soes come from Spec/TwoLevelCost.v *)
 
 (* the table t is well formed and denotes f on the domain *)
 Definition chk_table (n : nat) (t : list N) (f : N -> bool) : bool :=
@@ -104,11 +104,6 @@ Definition decomp_eqb (a b : DecompositionType) : bool :=
 Definition chk_bdd (n : nat) (ts : list (list N)) (count : nat) : bool := Nat.eqb count (bdd_nodes n ts).
 
 (* ---- C12 .. C15: two-level forms, checked by exhaustive evaluation over the 2^n assignments *)
-Definition cube_good (n : nat) (c : cube) : bool :=
-  (cpos c <? 2 ^ N.of_nat n) && (cneg c <? 2 ^ N.of_nat n) && (N.land (cpos c) (cneg c) =? 0).
-Definition sem_or (cs : list cube) (m : N) : bool := existsb (fun c => cube_value c m) cs.
-Definition sem_xor (cs : list cube) (m : N) : bool := fold_left (fun r c => xorb r (cube_value c m)) cs false.
-Definition sem_soes (es : list ecube) (m : N) : bool := existsb (fun e => ecube_value e m) es.
 
 Fixpoint strictly_sorted (l : list cube) : bool :=
   match l with
@@ -141,3 +136,27 @@ Fixpoint list_eqb {A} (eqb : A -> A -> bool) (a b : list A) : bool :=
 (* Lut -> Sop: the minterm cover in increasing assignment order *)
 Definition chk_sop_from_lut (n : nat) (t : list N) (r : list cube) : bool :=
   list_eqb cube_eqb r (map (fun m => mkCube m (N.lxor m (N.ones (N.of_nat n)))) (filter (val t) (dom n))).
+
+(* ---- C18: the returned forms are valid, and no valid form offered as a witness is cheaper *)
+Definition chk_sop_opt (n : nat) (fs : list (list N)) (and_cost or_cost : Z) (ret : list (list cube))
+           (witness : option (list (list cube))) : bool :=
+  sop_solution_ok n fs ret &&
+  match witness with
+  | None => true
+  | Some w => negb (sop_solution_ok n fs w) || Z.leb (sop_cost and_cost or_cost ret) (sop_cost and_cost or_cost w)
+  end.
+Definition chk_sopes_opt (n : nat) (fs : list (list N)) (and_cost xor_cost or_cost : Z)
+           (ret : list (list cube * list ecube)) (witness : option (list (list cube * list ecube))) : bool :=
+  sopes_solution_ok n fs ret &&
+  match witness with
+  | None => true
+  | Some w => negb (sopes_solution_ok n fs w) ||
+              Z.leb (sopes_cost and_cost xor_cost or_cost ret) (sopes_cost and_cost xor_cost or_cost w)
+  end.
+Definition chk_esop_opt (n : nat) (fs : list (list N)) (and_cost xor_cost : Z) (ret : list (list cube))
+           (witness : option (list (list cube))) : bool :=
+  esop_solution_ok n fs ret &&
+  match witness with
+  | None => true
+  | Some w => negb (esop_solution_ok n fs w) || Z.leb (esop_cost and_cost xor_cost ret) (esop_cost and_cost xor_cost w)
+  end.
